@@ -135,6 +135,39 @@ OnSpawn(C, m, t, slot, ts) ==
                          \cup V((slot >= 0) <=> (C.par[t] /\ C.jobs > 1), "SlotIffParallel")
                          \cup V(~(C.stop /\ m.failSeen), "NothingAfterFirstFailure")]
 
+(* The environment contract of a spawn (C07) and the freshness of its version directory (C08).
+   ev carries what the child received: shell, flag, argc, cmd (tokens), cwdPkg, condName,
+   outOk/outExists/outTask/ts (COND_OUT parsed back), outListing (content at spawn, minus Conductor's own logs),
+   depsOk/deps (COND_DEPS parsed back into <<task, version>> pairs). To be applied BEFORE OnSpawn. *)
+OptTok(o) == "--" \o o[1] \o "=" \o o[2]
+ExpectedDeps(C, m, t) ==
+    LET out(d) == IF C.kind[d] = "group" THEN <<0, 0>>
+                  ELSE IF C.kind[d] # "exp" THEN <<d, 0>>
+                  ELSE IF d \in DOMAIN m.outTs THEN <<d, m.outTs[d]>>
+                  ELSE IF C.rts[d] > 0 THEN <<d, C.rts[d]>> ELSE <<0, 0>>
+    IN SelectSeq([i \in 1..Len(C.deps[t]) |-> out(C.deps[t][i])], LAMBDA p : p[1] # 0)
+
+OnSpawnEnv(C, m, t, ev) ==
+    [m EXCEPT !.viol = @
+        \cup V(ev.shell = "/bin/bash" /\ ev.flag = "-c" /\ ev.argc = 3, "EnvShell")
+        \cup V(ev.cmd = C.run[t] \o C.args[t] \o [i \in 1..Len(C.opts[t]) |-> OptTok(C.opts[t][i])], "EnvArgv")
+        \cup V(ev.cwdPkg = C.pkg[t], "EnvCwd")
+        \cup V(ev.condName = C.name[t], "EnvName")
+        \cup V(ev.outOk /\ ev.outExists /\ ev.outTask = t /\ ((C.kind[t] = "exp") <=> (ev.ts > 0)), "EnvOut")
+        \cup V(ev.depsOk /\ ev.deps = ExpectedDeps(C, m, t), "EnvDeps")
+        \cup V(C.kind[t] # "exp" \/ ev.ts > C.maxrow, "IdAboveRecorded")
+        \cup V(C.kind[t] # "exp" \/ \A r \in DOMAIN m.outTs : m.outTs[r] # ev.ts, "IdUnique")
+        \cup V(C.kind[t] # "exp" \/ ev.outListing = <<>>, "DirFreshAndEmpty")]
+
+(* What conductor.lib reports inside the task (strings interned to numbers by the harness):
+   get_output_path() = COND_OUT, get_deps_paths() = the listed directories in order (the EMPTY list when there
+   are none), in_output_dir(p) = COND_OUT/p *)
+OnLib(C, m, ev) ==
+    [m EXCEPT !.viol = @
+        \cup V(ev.libOut = ev.envOut, "LibAgrees")
+        \cup V(ev.libDeps = ev.envDeps, "LibAgrees")
+        \cup V(ev.libIn = ev.wantIn, "LibAgrees")]
+
 OnSpawnFail(C, m, t) ==
     [m EXCEPT !.launchfail = @ \cup {t},
               !.viol = @ \cup V(t \in Needed(C), "OnlyNeeded")
